@@ -133,6 +133,24 @@ static void scenario(const vh::Json& sc, vh::Out& out, vh::Rng& rng, const vh::A
     // make copies of the layers; if a copy did not equal its source the two results would differ
     bool rebuild_same = false; try { vh::Rng r2 = rng0; Entry e2; dirty_stack(0x5A); std::unique_ptr<PDU> p2(id < 100 ? catalogue(id, r2, e2) : extra(id, r2, e2)); rebuild_same = p2 && p2->serialize() == b; } catch (std::exception&) {}
     w.kv("rebuild_same", rebuild_same);
+    // C04: "Parsing the packet's serialization with libtins yields the same layers ... and payload": the layers libtins dissects
+    // on its own (everything down to the transport / leaf layer) must come back with the same classes, and the parsed packet
+    // must serialise to the same bytes
+    bool rt_types = false, rt_bytes = false; std::string rt_thrown;
+    try { if (b.empty()) throw std::runtime_error("nothing serialised");
+          std::unique_ptr<PDU> q(parse_entry(e, &b[0], (uint32_t)b.size()));
+          rt_types = true; PDU* x = p.get(); PDU* y = q.get();
+          for (; x && y; x = x->inner_pdu(), y = y->inner_pdu()) { std::string k = kind_of(x->pdu_type()); if (k.empty()) break; if (x->pdu_type() != y->pdu_type()) rt_types = false; if (leaf(k)) break;
+              if (x->pdu_type() == PDU::IP && static_cast<IP*>(x)->is_fragmented()) break; }      // what a fragment carries is opaque to the parser
+          // the same bytes; the two may differ in how much Ethernet padding follows (a tag built through the API pads to 64, a parsed
+          // one leaves the padding to the Ethernet layer - both satisfy "padded to the 60-byte minimum", C05 judges that)
+          Bytes b2 = q->serialize(); size_t m = std::min(b.size(), b2.size());
+          rt_bytes = std::equal(b.begin(), b.begin() + m, b2.begin());
+          for (size_t i = m; i < b.size(); ++i) if (b[i]) rt_bytes = false;
+          for (size_t i = m; i < b2.size(); ++i) if (b2[i]) rt_bytes = false;
+          if (b.size() != b2.size() && (e != E_ETH || m < 60)) rt_bytes = false;
+    } catch (std::exception& ex) { rt_thrown = typeid(ex).name(); }
+    w.kv("rt_types", rt_types).kv("rt_bytes", rt_bytes).kv("rt_thrown", rt_thrown);
     w.kv("thrown", thrown).kbytes("bytes", b).E(); out.event(w); out.end();
 }
 int main(int argc, char** argv) { return vh::run(argc, argv, scenario); }
